@@ -42,8 +42,12 @@ def _vars_fn(weak):
     return "__vars() {\n    echo \"%s\"\n}\n" % body
 
 def _checkout_script(name, salt, weak=()):
-    return ("{fn}{vf}echo \"checkout {n} salt={s}\" > src-{s}.txt\n__vars >> src-{s}.txt\n"
-            "i=0; for a in \"$@\"; do echo \"arg$((i++)):\" >> src-{s}.txt; __dump \"$a\" >> src-{s}.txt; done\n"
+    # Bob re-runs a changed checkout script in place and never deletes anything from
+    # a source workspace (bob-clean(1): "workspaces that hold source code are never
+    # deleted"), so -- unlike build and package scripts, whose workspaces Bob prunes --
+    # every version of a checkout script has to write the same set of paths.
+    return ("{fn}{vf}echo \"checkout {n} salt={s}\" > src-out.txt\n__vars >> src-out.txt\n"
+            "i=0; for a in \"$@\"; do echo \"arg$((i++)):\" >> src-out.txt; __dump \"$a\" >> src-out.txt; done\n"
             ).format(fn=DUMP_FN, vf=_vars_fn(weak), n=name, s=salt)
 
 def _build_script(name, salt, tools, weak=()):
@@ -213,7 +217,8 @@ def gen_project(rng, nmin=3, nmax=7, features=None):
         vis = []
         for d in r["depends"]:
             if "tools" in d["use"]:
-                vis.extend(model["recipes"][d["name"]]["provideTools"])
+                # toolW is by contract consumed weakly only (C03 varies its variant)
+                vis.extend(t for t in model["recipes"][d["name"]]["provideTools"] if t != "toolW")
         if vis and "tools" in features:
             r["buildTools"] = sorted(set(rng.sample(vis, rng.randint(0, len(vis)))))
             if rng.random() < 0.3:
